@@ -31,7 +31,7 @@ ASSUMPTIONS = [
     'error propagation, not for values',
     'SUMIF/SUMIFS are skipped when the installed pandas cannot run them',
 ]
-FLOORS = {'absolute_range_error_cases': 200, 'cached_error_cases': 100, 'and_or_range_error_cases': 300, 'op_error_cases': 1000, 'func_error_cases': 1000,
+FLOORS = {'error_below_gap_cases': 70, 'absolute_range_error_cases': 200, 'cached_error_cases': 100, 'and_or_range_error_cases': 300, 'op_error_cases': 1000, 'func_error_cases': 1000,
           'type_pair_cases': 500, 'aggregate_cases': 200,
           'stored_error_cases': 8, 'truth_table_cases': 50,
           'formula_spelling_cases': 1000}
@@ -633,6 +633,37 @@ def run(ctx):
                           {'kind': 'expect_error', 'code': code,
                            'key': (name, lname, code, 'formula', wrap)})
     B.flush()
+
+    # ---- D3. an error below a gap of empty cells in a sparse range (gaps of
+    # 101-200 cells; KF-C03-02 is about what lies behind LONGER gaps and about
+    # blank runs in rows) -------------------------------------------------------
+    if sh in (2, 3) or thorough:
+        for gap in (50, 101, 150, 199):
+            for code in ('#N/A', '#DIV/0!', '#VALUE!'):
+                cells_ = {f'A{i}': float(i) for i in range(1, 21)}
+                row_e = 20 + gap + 1
+                cells_[f'A{row_e}'] = '=' + code
+                last = row_e + 50
+                cells_['B1'] = 'x'
+                forms = {f'=SUM(A1:A{last})': code,
+                         f'=AVERAGE(A1:A{last})': code,
+                         f'=MAX(A1:A{last})': code, f'=MIN(A1:A{last})': code,
+                         f'=ISERROR(SUM(A1:A{last}))': True,
+                         f'=SUM(A1:A{last})+1': code}
+                outs = subject.eval_batch(list(forms), cells_)
+                for (text, want), got in zip(forms.items(), outs):
+                    ctx.event('aggregate_cases')
+                    ctx.event('error_below_gap_cases')
+                    ctx.case(('error-below-gap', gap, code, text[:6]))
+                    wn = ('bool', True) if want is True else ('err', want)
+                    if got != ('value', wn):
+                        ctx.fail(f'{text} with numbers in A1:A20, {code} in '
+                                 f'A{row_e} ({gap} empty cells in between): '
+                                 f'observed {got}, expected {wn}',
+                                 {'formula': text, 'gap': gap, 'code': code,
+                                  'observed': got},
+                                 monitor='propagation',
+                                 group=f'error-below-gap:{gap}')
 
     # ---- E. a cell whose formula yields an error stores and hands it on ----
     if sh == 0:
